@@ -153,7 +153,7 @@ func (m *Monitor) doRespConnBind(r *mReq, msg *stun.Message, ok bool, code int, 
 		if t != nil && r.Auth > 0 && r.User != a.User {
 			t.ForeignTried = true // refused, as it must be - and it must have changed nothing
 		}
-		if t != nil && r.Auth > 0 && r.User == a.User && !t.Bound && !t.Closed && t.Created.Lo+bindTimeoutNS > I.Hi+1 &&
+		if t != nil && r.Auth > 0 && r.User == a.User && !t.Bound && !t.Closed && t.Created.Lo+bindTimeoutNS > I.Hi+1 && m.P.Cfg.Listener == "tcp" &&
 			m.M.DefinitelyAlive(a, I.Lo, I.Hi) && len(m.K.StallIntervals()) == 0 && !m.serverClosed && !t.peerGone() {
 			props := []string{"C16"}
 			if t.ForeignTried {
@@ -275,7 +275,20 @@ func (m *Monitor) tcpIdle(now int64) {
 	m.judgePipeClosed()
 	for _, as := range m.M.Allocs {
 		for _, a := range as {
-			for _, t := range a.TCPs {
+			for cid, t := range a.TCPs {
+				if t.Conn != nil && t.Closed && t.Bound && !m.halfOpenReported[cid] && now > t.ClosedAt+5e9 && len(m.K.StallIntervals()) == 0 {
+					// a bound pipe ends as a whole: the peer side has been closed for 5 s, the
+					// client's data connection must not linger (it would swallow what is written to it)
+					if d := m.dataConns[cid]; d != nil {
+						d.mu.Lock()
+						dopen := !d.closed
+						d.mu.Unlock()
+						if dopen {
+							m.halfOpenReported[cid] = true
+							m.v([]string{"C16", "C15"}, "pipe-half-open", nil, "peer connection %d (%s) of a bound pipe was closed at %d but the client's data connection is still open at %d", cid, t.Peer, t.ClosedAt, now)
+						}
+					}
+				}
 				if t.Conn == nil || t.Closed {
 					continue
 				}
